@@ -90,13 +90,14 @@ var (
 func attributeExists(args ...Object) Object {
 	path := args[0]
 
-	return nativeBoolToBooleanObject(path.Type() != ObjectTypeNull)
+	// an attribute of type NULL exists, only an undefined path does not
+	return nativeBoolToBooleanObject(!isUndefined(path))
 }
 
 func attributeNotExists(args ...Object) Object {
 	path := args[0]
 
-	return nativeBoolToBooleanObject(path.Type() == ObjectTypeNull)
+	return nativeBoolToBooleanObject(isUndefined(path))
 }
 
 func attributeType(args ...Object) Object {
